@@ -12,10 +12,9 @@ LOOP = True
 DIRS = "^v<>"
 KIND = {"^": 1, "v": 2, "<": 3, ">": 4}
 TIER1 = ("Firefly", "solve_firefly_model")
-# Boards without any firefly are left out of the search family and of Tier 2 (class key "firefly:no-firefly"): on them
+# Boards without any firefly are left out of Tier 2 (class key "firefly:no-firefly", a recorded known finding): on them
 # solve_firefly admits every single closed loop besides the empty drawing (and nothing at all on the 1 x 1 board), while by
-# the rules only the empty drawing is a solution (Rules_firefly.v, reading (b)); reported to the coordinator.  Set to False
-# to see the disagreement (2 x 2 points, no firefly: the solver admits the empty drawing and the square).
+# the rules only the empty drawing is a solution (Rules_firefly.v, reading (b)).
 EXCLUDE_NO_FIREFLY = True
 
 
@@ -80,9 +79,10 @@ def _pairs(h, w, nums):
 
 
 def families(tier, rng):
-    for pb in _families(tier, rng):
-        if not (EXCLUDE_NO_FIREFLY and classify(pb, "") == "firefly:no-firefly"):
-            yield pb
+    # boards without any firefly stay IN the search family: the check exhibits the recorded finding on every run
+    # (KNOWN_FINDINGS.txt, key firefly:no-firefly -> a KNOWN-FINDING line, not an alarm) and would report any other
+    # disagreement on such boards under its own key
+    yield from _families(tier, rng)
 
 
 def _families(tier, rng):
